@@ -625,7 +625,7 @@ theorem singleLetterOffsets_spec (T : Tables) (plain : Str) (hits : List (Nat ×
 
 /-- the context excerpt marks the same characters as offset/length select in the text
     (tabs and line breaks shown as blanks), also at both ends of the text -/
-theorem createContext_marks (txt : Str) (offset length : Nat) (h : offset + length ≤ txt.length) (hl : length ≤ 45) :
+theorem createContext_marks (txt : Str) (offset length : Nat) (h : offset + length ≤ txt.length) :
     let c := createContext txt offset length
     ((c.text.drop c.offset).take c.length) =
       ((txt.drop offset).take length).map (fun ch => if ch == '\t' || ch == '\n' then ' ' else ch) := by
@@ -633,7 +633,7 @@ theorem createContext_marks (txt : Str) (offset length : Nat) (h : offset + leng
   have h3 : ("...".toList).length = 3 := by decide
   rw [List.append_assoc, Nat.add_comm, ← List.drop_drop, List.drop_left' h3]
   have hle : offset - (offset - 45) ≤ (List.map (fun c => if (c == '\t' || c == '\n') = true then ' ' else c)
-      (List.drop (offset - 45) (List.take (min (offset + 45) txt.length) txt))).length := by
+      (List.drop (offset - 45) (List.take (min (max (offset + 45) (offset + length)) txt.length) txt))).length := by
     simp only [List.length_map, List.length_drop, List.length_take]; omega
   rw [List.drop_append_of_le_length hle, List.take_append_of_le_length]
   · rw [← List.map_drop, ← List.map_take, List.drop_drop]
